@@ -39,7 +39,7 @@ Hi(r, k) == SumLen(r, k) - 1                  \* ... and of its last point
 
 IsMonthStart(r, t) == \E j \in DOMAIN r.months : r.months[j] = t
 MIdx(r, t) == CHOOSE j \in DOMAIN r.months : r.months[j] = t
-PrevMonth(r, t) == r.months[MIdx(r, t) - 1]   \* the table has two spare months on both sides
+PrevMonth(r, t) == r.months[MIdx(r, t) - 1]   \* the table has spare months on both sides
 NextMonth(r, t) == r.months[MIdx(r, t) + 1]
 MonthOf(r, t) == CHOOSE j \in DOMAIN r.months :
                     r.months[j] <= t /\ (j = Len(r.months) \/ t < r.months[j + 1])
@@ -60,10 +60,12 @@ JudgedPoint(r) == Judged(r) /\ r.point
 
 (* ---- clauses ---- *)
 ErrorsAgree(r) == r.err = r.rerr
-(* the only legitimate failure: some metric offset is not a multiple of the coarsest step used *)
+(* the only legitimate failures: some metric offset is not a multiple of the coarsest step used;
+   a range too long for the coarsest step (impossible for 32-bit unix seconds and the real table) *)
 NoUnexpectedError(r) ==
-    r.err # "none" => /\ r.err = "offset"
-                      /\ \E i \in DOMAIN r.offs : r.offs[i] % Unit(r) # 0
+    r.err # "none" =>
+        \/ r.err = "offset" /\ \E i \in DOMAIN r.offs : r.offs[i] % Unit(r) # 0
+        \/ r.err = "range" /\ ~Monthly(r) /\ (r.end - r.start) \div Week >= Limit \div 2
 NonEmpty(r) ==
     (ProperArgs(r) /\ r.err = "none" /\ ~Future(r) /\ N(r) = 0)
         => (r.point /\ r.end - r.start < 2 * Unit(r))   \* no whole step inside a short range
